@@ -19,8 +19,16 @@ def build(dim, lengths, cps, layers, periodic):
 def check_grid(acc, rng, dim, lengths, cps, layers, periodic, max_pairs=3000):
     g = {"dim": dim, "L": [x.hex() for x in lengths], "Lf": list(lengths), "cps": list(cps), "layers": layers,
          "periodic": periodic}
+    # the documented short form: a list shorter than the dimension is completed with its FIRST entry; whenever the tail of
+    # cps equals that, the constructor is given the short list and everything below is judged for the full one
+    given = list(cps)
+    k = next((j for j in range(1, dim) if all(c == cps[0] for c in cps[j:])), None)
+    if k is not None and rng.random() < 0.5:
+        given = list(cps[:k])
+        g["given"] = given
+        acc.count("grids_built_from_a_short_cells_per_side_list")
     try:
-        cells = build(dim, lengths, cps, layers, periodic)
+        cells = build(dim, lengths, given, layers, periodic)
     except Exception as e:  # construction of a legal grid must not fail
         acc.violation("C16:construction-raises", f"grid {g}: {type(e).__name__}: {e}", g)
         return
@@ -173,6 +181,8 @@ def gen_grid(rng, max_cells):
         cps = [rng.randint(1, hi) if rng.random() < 0.7 else rng.choice([1, 2, 3, 5, 6, 7, 9]) for _ in range(dim)]
         if rng.random() < 0.3:
             cps = [cps[0]] * dim
+        elif dim >= 3 and rng.random() < 0.2:
+            cps = [cps[0], cps[1]] + [cps[0]] * (dim - 2)
         ncell = math.prod(cps)
         if ncell > max_cells:
             continue
